@@ -55,7 +55,7 @@ def div_element(draw):
 
 @st.composite
 def aliquot_element(draw):
-    return {"kind": "aliquot", "chain": draw(aq.chain_strategy(1, 3)), "style": draw(st.sampled_from(["slash", "glyph"]))}
+    return {"kind": "aliquot", "chain": draw(aq.chain_strategy(1, 3)), "style": draw(st.sampled_from(["slash", "glyph", "slash", "glyph", "fracfree"]))}
 
 
 def case():
@@ -71,12 +71,20 @@ def case():
                 seps[i] = draw(st.sampled_from(["\n", "\n\n", " \n"]))
         return {"els": els, "seps": seps, "config": draw(st.sampled_from(CONFIGS)),
                 # how suppress_lot_divs reaches the parse: through the config (as written in "config"), or through / against a keyword
-                "suppress_via": draw(st.sampled_from(["config", "config", "kw", "kw_false_over_config", "kw_true_over_config"])),
+                "suppress_via": draw(st.sampled_from(["config", "config", "kw", "kw_false_over_config", "kw_true_over_config", "config_reassigned"])),
                 "reparse": draw(st.sampled_from(["none", "none", "same_same_toggled", "dry_run_other_settings"]))}
     return build()
 
 
 def chain_text(chain, style):
+    if style == "fracfree":
+        # 'N2NENW': bare quarters are aliquots in a run directly after a half (C07), whatever separator follows
+        k = 0
+        while k < len(chain) and chain[k] in aq.HALVES:
+            k += 1
+        if k >= 1 and all(x in aq.QUARTERS for x in chain[k:]):
+            return aq.frac_free(chain)
+        return aq.canonical_text(chain)
     if style == "glyph":
         return aq.canonical_text(chain)
     return "".join(c + ("/2" if c in aq.HALVES else "/4") for c in chain)
@@ -196,6 +204,13 @@ def make_tract(text, cfg, via):
         t = Tract(text, config=",".join(x for x in (base, "suppress_lot_divs.False") if x))
         t.parse(suppress_lot_divs=True)
         return t, True
+    if via == "config_reassigned":
+        # configured the other way round first, then re-configured with an explicit value, then parsed
+        first = ",".join(x for x in (base, "suppress_lot_divs.False" if want else "suppress_lot_divs") if x)
+        t = Tract(text, parse_qq=True, config=first)
+        t.config = ",".join(x for x in (base, "suppress_lot_divs.True" if want else "suppress_lot_divs.False") if x)
+        t.parse()
+        return t, want
     return Tract(text, parse_qq=True, config=cfg), want
 
 
@@ -312,5 +327,5 @@ def render(c):
 SUBS = [
     Sub("compose", oracle, strategy=lambda tier: case(), validate=validate, nontrivial=nontrivial, classes=classes, render=render,
         n={"quick": 800, "thorough": 15000}, shards={"quick": 12, "thorough": 16},
-        essential=("lots->aliquot", "aliquot->lots", "div->aliquot", "aliquot->div", "lots->div", "aliquot->all", "acreage", "suppress", "bare_linebreak", "via=kw_false_over_config", "via=kw_true_over_config", "reparse=same_same_toggled", "reparse=dry_run_other_settings", "div_with_acreage")),
+        essential=("lots->aliquot", "aliquot->lots", "div->aliquot", "aliquot->div", "lots->div", "aliquot->all", "acreage", "suppress", "bare_linebreak", "via=kw_false_over_config", "via=kw_true_over_config", "via=config_reassigned", "reparse=same_same_toggled", "reparse=dry_run_other_settings", "div_with_acreage")),
 ]
